@@ -356,10 +356,52 @@ def setup():
 def plan(tier, seed):
     n = 8 if tier == "quick" else 16
     per = 25000 if tier == "quick" else 150000
-    return [{"i": i, "n": per} for i in range(n)] + ([{"kind": "e10"}] if tier == "thorough" else [])
+    return [{"i": i, "n": per} for i in range(n)] + ([{"kind": "e10"}, {"kind": "strace", "n": 20000}] if tier == "thorough" else [])
+
+
+def strace_pass(rec, n):
+    """OS-level second opinion: the same kind of batch decoded in a child under strace; no execve/socket/connect/openat may
+    occur between the two markers."""
+    import os
+    import subprocess
+    import tempfile
+    out = tempfile.mktemp(prefix="c04-strace-", dir=os.path.join(core.VERIF, ".work"))
+    env = dict(os.environ, PYTHONPATH=os.pathsep.join([core.REPO, core.VERIF]))
+    try:
+        p = subprocess.run(["strace", "-f", "-e", "trace=execve,socket,connect,openat", "-o", out, sys.executable, "-m", "checks.c04_strace_child", str(rec.seed), str(n)],
+                           cwd=core.VERIF, env=env, capture_output=True, text=True, timeout=900)
+    except (OSError, subprocess.TimeoutExpired) as x:
+        rec.inconc("strace pass could not run: %r" % (x,))
+        return
+    try:
+        lines = open(out, errors="replace").read().splitlines()
+    except OSError:
+        rec.inconc("strace produced no trace: %s" % p.stderr[-200:])
+        return
+    finally:
+        if os.path.exists(out):
+            os.remove(out)
+    try:
+        b = next(i for i, l in enumerate(lines) if "C04-BEGIN" in l)
+        e = next(i for i, l in enumerate(lines) if "C04-END" in l)
+    except StopIteration:
+        rec.inconc("strace pass: markers not found (child output: %s %s)" % (p.stdout[-100:], p.stderr[-200:]))
+        return
+    inside = lines[b + 1:e]
+    decoded = int(p.stdout.split()[-1]) if p.stdout.split() else 0
+    rec.case(("strace", rec.seed, n), sample={"strace_decoded_payloads": decoded, "syscalls_between_markers": len(inside), "trace_lines_total": len(lines)})
+    rec.count("strace_decoded_payloads", decoded)
+    rec.count("strace_syscalls_during_decoding", len(inside))
+    for l in inside[:3]:
+        rec.violation("os-level-syscall-during-decoding:" + (l.split("(")[0].split()[-1] if "(" in l else "?"), "strace saw, while %d hostile payloads were decoded: %s" % (decoded, l), {"strace_line": l})
 
 
 def run_shard(shard, rec):
+    if shard.get("kind") == "strace":
+        strace_pass(rec, shard["n"])
+        for k in REQUIRED_REACH:
+            rec.count(k)
+        return
     if shard.get("kind") == "e10":
         from vlib import e10
         e10.run_e10("C04", rec)
